@@ -37,6 +37,11 @@ type Obligation struct {
 	Smoke   bool   `json:"smoke,omitempty"`
 	getvals []string
 	replay  *replayInfo
+	Info         bool // reachability probe of one return path: reported, never a failure
+	batch        bool
+	noProvedFrom int    // batch query: ignore proved-goal assumptions from this line on (-1: keep all)
+	hide     [][2]int   // script ranges of other paths (not part of this query)
+	partHide [][][2]int // per part
 }
 
 type Ctx struct {
@@ -163,14 +168,14 @@ func (c *Ctx) oblige(kind, name string, tags []string, reach, goal T, pos token.
 			env.at = "known finding " + f.ID
 			wt := env.evalBool(w)
 			o := &Obligation{Fn: c.fnKey, Name: full + "|finding:" + f.ID, Kind: kind, Tags: tags, Pos: c.P.pos(pos), Text: text,
-				mark: c.sc.mark(), cond: and(reach, wt, not(goal)), sc: c.sc, Canary: true, Finding: f.ID, replay: c.replay}
+				mark: c.sc.mark(), cond: and(reach, wt, not(goal)), sc: c.sc, Canary: true, Finding: f.ID, replay: c.replay, hide: c.sc.hideFor(c.sc.mark() - 1)}
 			c.obls = append(c.obls, o)
 			reach = and(reach, not(wt))
 			oname = oname + "|not:" + f.ID
 		}
 	}
 	o := &Obligation{Fn: c.fnKey, Name: oname, Kind: kind, Tags: tags, Pos: c.P.pos(pos), Text: text,
-		mark: c.sc.mark(), cond: and(reach, not(goal)), sc: c.sc, replay: c.replay}
+		mark: c.sc.mark(), cond: and(reach, not(goal)), sc: c.sc, replay: c.replay, hide: c.sc.hideFor(c.sc.mark() - 1)}
 	c.obls = append(c.obls, o)
 	// proved (or reported) once: later code may rely on it
 	c.sc.assume(imp(reach, goal))
@@ -179,7 +184,7 @@ func (c *Ctx) oblige(kind, name string, tags []string, reach, goal T, pos token.
 
 // obligeParts: one named obligation decided by several queries (one per
 // return path); reaches[i] /\ not goals[i] must all be unsatisfiable.
-func (c *Ctx) obligeParts(kind, name string, tags []string, reaches, goals []T, pos token.Pos, text string) {
+func (c *Ctx) obligeParts(kind, name string, tags []string, reaches, goals []T, pos token.Pos, text string, positions ...int) {
 	full := name
 	c.oblNames[full]++
 	if n := c.oblNames[full]; n > 1 {
@@ -200,6 +205,9 @@ func (c *Ctx) obligeParts(kind, name string, tags []string, reaches, goals []T, 
 				sc: c.sc, Canary: true, Finding: f.ID, replay: c.replay}
 			for i := range goals {
 				o.parts = append(o.parts, and(reaches[i], wt, not(goals[i])))
+				if i < len(positions) {
+					o.partHide = append(o.partHide, c.sc.hideFor(positions[i]))
+				}
 			}
 			o.mark = c.sc.mark()
 			c.obls = append(c.obls, o)
@@ -218,6 +226,9 @@ func (c *Ctx) obligeParts(kind, name string, tags []string, reaches, goals []T, 
 			trivial = false
 		}
 		o.parts = append(o.parts, and(r, not(goals[i])))
+		if i < len(positions) {
+			o.partHide = append(o.partHide, c.sc.hideFor(positions[i]))
+		}
 	}
 	if trivial {
 		return
@@ -225,7 +236,7 @@ func (c *Ctx) obligeParts(kind, name string, tags []string, reaches, goals []T, 
 	o.mark = c.sc.mark()
 	c.obls = append(c.obls, o)
 	for i := range goals {
-		c.sc.assume(imp(reaches[i], goals[i]))
+		c.sc.assumeProved(imp(reaches[i], goals[i]))
 	}
 }
 
@@ -306,6 +317,8 @@ type retEdge struct {
 	cond T
 	st   *State
 	res  Val
+	pos  int // script position when the edge was recorded
+	src  token.Pos
 }
 
 func (c *Ctx) newFrame(fn *ssa.Function) *Frame {
@@ -407,6 +420,7 @@ func (c *Ctx) execBodyEdges(fr *Frame, st *State, reach T) (*State, T, Val, []re
 	type backRec struct {
 		st   *State
 		cond T
+		pos  int
 	}
 	backs := map[*ssa.BasicBlock][]backRec{}
 	// region reachable from b along forward edges
@@ -431,11 +445,14 @@ func (c *Ctx) execBodyEdges(fr *Frame, st *State, reach T) (*State, T, Val, []re
 			return
 		}
 		if backEdge(from, to) {
-			backs[to] = append(backs[to], backRec{st.clone(), cond})
+			backs[to] = append(backs[to], backRec{st.clone(), cond, c.sc.mark() - 1})
 			return
 		}
 		if split {
+			start := c.sc.mark()
+			c.sc.raw("; path")
 			execBlock(to, st.clone(), cond, []edgeInB{{from, cond, st}}, true)
+			c.sc.hidden = append(c.sc.hidden, [2]int{start, c.sc.mark()})
 			return
 		}
 		ins[to] = append(ins[to], edgeInB{from, cond, st})
@@ -463,7 +480,7 @@ func (c *Ctx) execBodyEdges(fr *Frame, st *State, reach T) (*State, T, Val, []re
 				for _, x := range t.Results {
 					res.L = append(res.L, fr.val(c, x).L...)
 				}
-				rets = append(rets, retEdge{r, cur, res})
+				rets = append(rets, retEdge{r, cur, res, c.sc.mark() - 1, t.Pos()})
 			case *ssa.Panic:
 				c.safe("panic:"+c.describeValue(t.X), r, "false", t.Pos())
 				return
@@ -473,12 +490,31 @@ func (c *Ctx) execBodyEdges(fr *Frame, st *State, reach T) (*State, T, Val, []re
 		}
 	}
 	splitDone := map[*ssa.BasicBlock]bool{}
-	for _, b := range topoOrder(fn) {
+	blockRange := map[*ssa.BasicBlock][][2]int{}
+	ancestors := func(b *ssa.BasicBlock) map[*ssa.BasicBlock]bool {
+		anc := map[*ssa.BasicBlock]bool{b: true}
+		stack := []*ssa.BasicBlock{b}
+		for len(stack) > 0 {
+			x := stack[len(stack)-1]
+			stack = stack[:len(stack)-1]
+			for _, p := range x.Preds {
+				if !backEdge(p, x) && !anc[p] {
+					anc[p] = true
+					stack = append(stack, p)
+				}
+			}
+		}
+		return anc
+	}
+	order := topoOrder(fn)
+	for _, b := range order {
 		if splitDone[b] {
 			continue
 		}
 		if b == fn.Blocks[0] {
+			start := c.sc.mark()
 			execBlock(b, st, reach, nil, false)
+			blockRange[b] = append(blockRange[b], [2]int{start, c.sc.mark()})
 			continue
 		}
 		in := ins[b]
@@ -492,9 +528,11 @@ func (c *Ctx) execBodyEdges(fr *Frame, st *State, reach T) (*State, T, Val, []re
 			if isRet && len(in) <= 16 {
 				// tail duplication: a returning block is executed once per
 				// incoming edge, so postconditions see unmerged states
+				start := c.sc.mark()
 				for _, e := range in {
 					execBlock(b, e.st.clone(), e.cond, []edgeInB{e}, false)
 				}
+				blockRange[b] = append(blockRange[b], [2]int{start, c.sc.mark()})
 				continue
 			}
 			if len(in) > 3 {
@@ -523,7 +561,25 @@ func (c *Ctx) execBodyEdges(fr *Frame, st *State, reach T) (*State, T, Val, []re
 						splitDone[x] = true
 					}
 					for _, e := range in {
+						start := c.sc.mark()
+						c.sc.raw("; path")
+						// blocks that cannot reach this edge contribute nothing to the path
+						anc := ancestors(e.from)
+						first := len(c.sc.hideIn)
+						for _, x := range order {
+							if !anc[x] {
+								for _, r := range blockRange[x] {
+									c.sc.hideIn = append(c.sc.hideIn, hideRule{r: r, o: [2]int{start, 1 << 60}})
+								}
+							}
+						}
 						execBlock(b, e.st.clone(), e.cond, []edgeInB{e}, true)
+						for i := first; i < len(c.sc.hideIn); i++ {
+							if c.sc.hideIn[i].o[0] == start {
+								c.sc.hideIn[i].o[1] = c.sc.mark()
+							}
+						}
+						c.sc.hidden = append(c.sc.hidden, [2]int{start, c.sc.mark()})
 					}
 					continue
 				}
@@ -535,9 +591,11 @@ func (c *Ctx) execBodyEdges(fr *Frame, st *State, reach T) (*State, T, Val, []re
 			es = append(es, edgeIn{e.cond, e.st})
 			cs = append(cs, e.cond)
 		}
+		start := c.sc.mark()
 		cur := c.merge(es)
 		r := c.sc.def(fmt.Sprintf("reach.f%d.b%d", fr.id, b.Index), sBool, or(cs...))
 		execBlock(b, cur, r, in, false)
+		blockRange[b] = append(blockRange[b], [2]int{start, c.sc.mark()})
 	}
 	// loop invariants at the back edges: one named obligation per clause, one
 	// query per back edge
@@ -550,8 +608,10 @@ func (c *Ctx) execBodyEdges(fr *Frame, st *State, reach T) (*State, T, Val, []re
 		invs, _ := c.loopClauses(fr, ord)
 		fk := funcKey(fn)
 		var reaches []T
+		var poss []int
 		for _, be := range bs {
 			reaches = append(reaches, be.cond)
+			poss = append(poss, be.pos)
 		}
 		if ri := rangeIndexOf(h); ri != nil {
 			var goals []T
@@ -562,7 +622,7 @@ func (c *Ctx) execBodyEdges(fr *Frame, st *State, reach T) (*State, T, Val, []re
 					goals = append(goals, "true")
 				}
 			}
-			c.obligeParts("invariant", fmt.Sprintf("%s:loop%d:preserved:rangeindex", fk, ord), nil, reaches, goals, h.Instrs[0].Pos(), "-1 <= rangeindex < 2^31")
+			c.obligeParts("invariant", fmt.Sprintf("%s:loop%d:preserved:rangeindex", fk, ord), nil, reaches, goals, h.Instrs[0].Pos(), "-1 <= rangeindex < 2^31", poss...)
 		}
 		for _, cl := range invs {
 			var goals []T
@@ -570,7 +630,7 @@ func (c *Ctx) execBodyEdges(fr *Frame, st *State, reach T) (*State, T, Val, []re
 				env := c.loopEnv(fr, h, be.st)
 				goals = append(goals, c.evalClause(env, cl))
 			}
-			c.obligeParts("invariant", fmt.Sprintf("%s:loop%d:preserved:%s", fk, ord, cl.name()), cl.Tags, reaches, goals, h.Instrs[0].Pos(), cl.Text)
+			c.obligeParts("invariant", fmt.Sprintf("%s:loop%d:preserved:%s", fk, ord, cl.name()), cl.Tags, reaches, goals, h.Instrs[0].Pos(), cl.Text, poss...)
 		}
 		if li := c.loopInfos[loopKey(c, fr, h)]; li != nil {
 			for _, be := range bs {
@@ -793,7 +853,15 @@ func (c *Ctx) havoc(st *State, locs []ModLoc, ntop T) {
 					nh[k] = v
 				}
 			}
+			// boxes no callee can reach keep their contents
+			var keep []Val
+			for _, pb := range st.private {
+				keep = append(keep, c.nameVal("priv", c.loadBox(st, pb.typ, pb.ref)))
+			}
 			st.heap = nh
+			for i, pb := range st.private {
+				c.storeBox(st, pb.typ, pb.ref, keep[i])
+			}
 			continue
 		}
 		if m.Glob {
@@ -818,7 +886,7 @@ func (c *Ctx) havoc(st *State, locs []ModLoc, ntop T) {
 				_, inner := innerSort(m.Sort)
 				ks, _ := innerSort(inner)
 				x := "(select (select " + nh + " r) i)"
-				if f := c.leafFact(l, x, ntop); f != "true" {
+				if f := allocGuard(l, c.leafFact(l, x, ntop), ntop); f != "true" {
 					c.sc.assume(fmt.Sprintf("(forall ((r Int) (i %s)) (! %s :pattern (%s)))", ks, f, x))
 				}
 			}
